@@ -53,6 +53,8 @@ pub enum Op {
     TransferOwnership,
     /// the owner upgrades the gas service and completes the migration: collector and custody are carried over
     UpgradeAndMigrate,
+    /// the ledger advances by this many days (custody, collector and dedup-free payouts do not depend on time)
+    AdvanceDays(u8),
 }
 
 #[derive(Clone, Debug, Serialize, Deserialize)]
@@ -80,6 +82,7 @@ fn op() -> impl Strategy<Value = Op> {
         3 => (by(), 0u8..NR as u8, 0u8..NT as u8, amt()).prop_map(|(by, receiver, token, amount)| Op::Refund { by, receiver, token, amount }),
         1 => Just(Op::TransferOwnership),
         1 => Just(Op::UpgradeAndMigrate),
+        1 => (1u8..90).prop_map(Op::AdvanceDays),
     ]
 }
 
@@ -165,6 +168,7 @@ impl Property for C14 {
         let mut held = [0i128; NT];
         let mut touched = [false; NT];
         let mut payout = false;
+        let mut days_passed: u32 = 0;
 
         for (step, op) in case.ops.iter().enumerate() {
             if let Op::TransferOwnership = op {
@@ -175,6 +179,14 @@ impl Property for C14 {
                 cx.label(if case.single_key { "ownership_moved_away_from_single_key" } else { "ownership_transferred" });
                 continue;
             }
+            if let Op::AdvanceDays(d) = op {
+                if days_passed + *d as u32 <= 250 {
+                    days_passed += *d as u32;
+                    advance_ledgers(&env, *d as u32 * 17280);
+                    cx.label("ledger_advanced_by_days");
+                }
+                continue;
+            }
             if let Op::UpgradeAndMigrate = op {
                 upgrade_and_migrate(&env, &gas.id).map_err(|e| format!("step {}: {}", step, e))?;
                 cx.label("upgrade_and_migration_in_history");
@@ -182,7 +194,7 @@ impl Property for C14 {
             }
             let ti = match op {
                 Op::Pay { token, .. } | Op::Add { token, .. } | Op::Collect { token, .. } | Op::Refund { token, .. } => *token as usize % NT,
-                Op::TransferOwnership | Op::UpgradeAndMigrate => unreachable!(),
+                Op::TransferOwnership | Op::UpgradeAndMigrate | Op::AdvanceDays(_) => unreachable!(),
             };
             let taddr = tokens[ti].clone();
             touched[ti] = true;
@@ -205,7 +217,7 @@ impl Property for C14 {
             match (op, by) {
                 (Op::Pay { .. } | Op::Add { .. }, _) | (_, By::Collector) => env.mock_all_auths(),
                 (_, By::Nobody) => env.mock_auths(&[]),
-                (Op::TransferOwnership, _) | (Op::UpgradeAndMigrate, _) => unreachable!(),
+                (Op::TransferOwnership, _) | (Op::UpgradeAndMigrate, _) | (Op::AdvanceDays(_), _) => unreachable!(),
                 (Op::Collect { receiver, amount, .. }, b) => {
                     let a = resolve(if ti == SLOPPY && *amount == Amt::Max { Amt::BalPlus1 } else { *amount }, held[ti]);
                     let who = if b == By::Stranger { &stranger } else { &owner_now };
@@ -289,7 +301,7 @@ impl Property for C14 {
                         payout = true;
                     }
                 }
-                Op::TransferOwnership | Op::UpgradeAndMigrate => unreachable!(),
+                Op::TransferOwnership | Op::UpgradeAndMigrate | Op::AdvanceDays(_) => unreachable!(),
                 Op::Refund { by, receiver, amount: a, .. } => {
                     let ri = *receiver as usize % NR;
                     amount = resolve(if ti == SLOPPY && *a == Amt::Max { Amt::BalPlus1 } else { *a }, held[ti]);
